@@ -34,6 +34,8 @@ def _root_.LaytheVerif.Gen.PKind.isValid (p : PKind) (v : VKind) : Bool :=
     | .object, .nil => true
     | .callable, .obj k => k = .closure || k = .fun_ || k = .native || k = .method
     | .string, .obj k => k = .string
+    | .enumerator, .obj k => k = .enumerator
+    | .class_, .obj k => k = .class_
     | _, _ => false
 
 /-- the same predicate read off the *regenerated* arms of the `match` -/
@@ -259,12 +261,29 @@ def Dispatch.handler : Dispatch → String
   | .closure => "call_closure" | .method => "call_method" | .native => "call_native"
   | .cls => "call_class" | .fn => "call" | .notCallable => "not callable"
 
+/-! ## `chan(n)`: `op_buffered_channel` -/
+
+/-- the popped capacity, as far as the tests of `op_buffered_channel` distinguish it: not a number; a number that is not
+    integral (NaN and the infinities included: their `fract()` is NaN); an integral number below 1; a positive integer -/
+inductive ChanArg where
+  | notNumber | notIntegral | belowOne
+  | positive (n : Nat)
+  deriving DecidableEq, Repr
+
+/-- `op_buffered_channel`: `Except (error class) (capacity the buffer is allocated with)`; the three tests in the order
+    of `Limits.chanCapacityTests` -/
+def chanCapacity : ChanArg → Except String Nat
+  | .notNumber => .error "type_"
+  | .notIntegral => .error "type_"
+  | .belowOne => .error "type_"
+  | .positive n => if n = 0 then .error "type_" else if n > Limits.maxChannelCapacity then .error "value" else .ok n
+
 /-- events of one fiber's frame stack -/
 inductive FrameOp where
   /-- `call_closure` / `call`: arity accepted, the guard runs, then `push_frame` -/
   | callLaythe
-  /-- `call_native` with `NativeEnvironment::Normal`: pushes a stub frame *without* the guard,
-      runs the body (which may call back through `run_fun`), then pops it -/
+  /-- `call_native` with `NativeEnvironment::Normal`: signature accepted, the guard runs, then the stub frame is
+      pushed and the body runs (it may call back through `run_fun`); `nativeLeave` pops the stub -/
   | nativeEnter
   | nativeLeave
   /-- `op_return` / unwinding pops one frame -/
@@ -275,18 +294,20 @@ inductive FrameResult where
   | ok | stackOverflow
   deriving DecidableEq, Repr
 
-/-- the guard of `call_closure` / `call`: `if self.fiber.frames().len() == MAX_FRAME_SIZE { Stack overflow. }` -/
-def guardTrips (frames : Nat) : Bool := frames == Limits.maxFrameSize
+/-- the guard of `call_native` (Normal), `call_closure` and `call`:
+    `if self.fiber.frames().len() >= MAX_FRAME_SIZE { return Stack overflow. }` -/
+def guardTrips (frames : Nat) : Bool := frames ≥ Limits.maxFrameSize
 
 structure FrameState where
-  /-- Laythe frames (each one was admitted by the guard) -/
+  /-- `fiber.frames().len()`: Laythe frames and native stub frames alike -/
   frames : Nat
   deriving DecidableEq, Repr
 
-/-- one step; `none` = the op is not enabled (pop of an empty stack) -/
+/-- one step; `none` = the op is not enabled (pop of an empty stack).  Every push — the three functions of
+    `Limits.pushFrameSites` that call `Vm::push_frame` — sits behind the guard. -/
 def frameStep (s : FrameState) : FrameOp → Option (FrameState × FrameResult)
   | .callLaythe => if guardTrips s.frames then some (s, .stackOverflow) else some ({ frames := s.frames + 1 }, .ok)
-  | .nativeEnter => some ({ frames := s.frames + 1 }, .ok)
+  | .nativeEnter => if guardTrips s.frames then some (s, .stackOverflow) else some ({ frames := s.frames + 1 }, .ok)
   | .nativeLeave => if s.frames = 0 then none else some ({ frames := s.frames - 1 }, .ok)
   | .ret => if s.frames = 0 then none else some ({ frames := s.frames - 1 }, .ok)
 
@@ -296,13 +317,11 @@ def frameRun (s : FrameState) : List FrameOp → Option FrameState
     | some (s', _) => frameRun s' ops
     | none => none
 
-/-- Stub frames are pushed without the guard, so the bound that holds is in terms of the nesting of
-    native (stack-using) calls: a native frame is always directly followed by its body, whose Laythe
-    calls are guarded again.  `nativeDepth` = number of currently open `nativeEnter`s. -/
-def nativeDepth : List FrameOp → Nat → Nat
-  | [], d => d
-  | .nativeEnter :: ops, d => nativeDepth ops (d + 1)
-  | .nativeLeave :: ops, d => nativeDepth ops (d - 1)
-  | _ :: ops, d => nativeDepth ops d
+/-- every state the fiber goes through while it performs `ops` (the run stops at an op that is not enabled) -/
+def frameTrace (s : FrameState) : List FrameOp → List FrameState
+  | [] => [s]
+  | op :: ops => s :: match frameStep s op with
+    | some (s', _) => frameTrace s' ops
+    | none => []
 
 end LaytheVerif.Signature
